@@ -5,7 +5,7 @@
    callers, equal or distinct keys, known or unknown actions). *)
 From Coq Require Import List Arith NArith Bool Lia.
 Import ListNotations.
-Require Import FV.Gen.C11 FV.C11.Model FV.C11.Lemmas FV.C11.Refuted.
+Require Import FV.Gen.C11 FV.C11.Model FV.C11.Lemmas.
 
 (* obligations on the facts regenerated from /repo (Gen/C11.v): the code has the modelled shape, and no reply
    action of REQUEST2REPLY starts with the error prefix *)
@@ -57,40 +57,56 @@ Theorem C11_wait_bounded : forall reqs s i, nth_error (cs s) i = Some CWait ->
   exists o, nth_error (cs (cstep R2R ERR reqs s (TC i, ATimeout))) i = Some (CDone o).
 Proof. intros; apply wait_bounded; assumption. Qed.
 
-(* FULL STATEMENT (refuted, see below): disconnect() never raises.  Proved with the exact guard: a step of
-   disconnect() raises only at the shutdown-marker step, and only if self._txthread was cleared after the test *)
-Theorem C11_disconnect_raises_only_in_join_race : forall s d,
-  snd (dstep s d) = DExc -> d = DExc \/ (d = DMark /\ txset s = false).
-Proof. intros; apply dstep_raises; assumption. Qed.
-
-(* refutations on the faithful model (witness schedules are real executions of the pinned code, corpus/C11) *)
-Theorem C11_refuted_own_reply_parked : exists reqs sched,
-  all_enabled reqs sched = true /\
+(* disconnect() never raises, whoever runs it and however many run it at once (user, tx thread, rx thread):
+   all schedules.  (Was refuted before repair a58ac30: C11/txthread-join-race.) *)
+Theorem C11_disconnect_never_raises : forall reqs sched,
   let s := run R2R ERR reqs sched in
-  nth_error (cs s) 1 = Some (CDone OTimeout) /\ pending s = [1] /\ active s = [] /\ out s = [] /\
-  running s = true /\ closed_local s = false /\ memb 0 (map fst (replies s)) = true.
-Proof. exact C11_refuted_parked. Qed.
+  us s <> UDisc DExc /\ tx s <> TDisc DExc /\ rx s <> RDisc DExc.
+Proof. intros reqs sched. destruct (never_raises R2R ERR reqs sched) as [A [B C]]. repeat split; assumption. Qed.
 
-Theorem C11_refuted_release_txq_entry_lost : exists reqs sched,
-  all_enabled reqs sched = true /\
-  let s := run R2R ERR reqs sched in
-  us s = UDisc DFin /\ cs s = [CDone OTimeout; CDone OTimeout] /\ evset s = [].
-Proof. exact C11_refuted_txq_entry_lost. Qed.
+(* release on disconnect, the two repaired paths (were refuted before repair 14a9701: C11/txq-entry-lost-on-disconnect):
+   in every state, an entry that the drain of disconnect() takes out of txq gets its event set by the same thread
+   before the next entry is taken ... *)
+Theorem C11_drained_entry_released : forall s e r, txq s = Some e :: r ->
+  snd (dstep s DQDrop) = DQSet e /\
+  memb e (evset (fst (dstep (fst (dstep s DQDrop)) (DQSet e)))) = true /\
+  snd (dstep (fst (dstep s DQDrop)) (DQSet e)) = DQDrop.
+Proof. intros; eapply drain_releases; eauto. Qed.
 
-Theorem C11_refuted_disconnect_raises : exists reqs sched,
-  all_enabled reqs sched = true /\ us (run R2R ERR reqs sched) = UDisc DExc.
-Proof. exact C11_refuted_txthread_join_race. Qed.
+(* ... and a caller that queues its request after a disconnect() has begun releases itself *)
+Theorem C11_late_request_released : forall reqs s i, running s = false -> nth_error (cs s) i = Some CPut ->
+  let s2 := cstep R2R ERR reqs (cstep R2R ERR reqs s (TC i, ANone)) (TC i, ANone) in
+  memb i (evset s2) = true /\ nth_error (cs s2) i = Some CWait.
+Proof. intros; apply late_put_self_release; assumption. Qed.
 
-(* non-vacuity: two callers with the same key, both answered with their own reply, in order *)
+(* own reply, the repaired window (was refuted before repair 2fda835: C11/parked-in-pending): in every state the rx
+   thread reaches readline only from the re-queue loop at the top of its turn and only when `pending` is empty, and
+   that loop moves every parked request back into txq *)
+Theorem C11_parked_requeued_every_turn : forall reqs s a,
+  (rx s <> RRecv -> rx (rx_step R2R ERR reqs s a) = RRecv -> rx s = RTopEmpty /\ pending s = []) /\
+  (forall e r, rx s = RTopEmpty -> pending s = e :: r ->
+     let s3 := rx_step R2R ERR reqs (rx_step R2R ERR reqs (rx_step R2R ERR reqs s a) a) a in
+     rx s3 = RTopEmpty /\ pending s3 = r /\ txq s3 = txq s ++ [Some e]).
+Proof.
+  intros reqs s a. split.
+  - apply recv_only_after_requeue.
+  - intros e r H1 H2. apply requeue_moves_parked; assumption.
+Qed.
+
+(* non-vacuity: two callers with the same key; the second is parked in the window of the former defect (tx has
+   tested the key, rx delivers and finds `pending` empty, tx parks), is re-queued at the next turn of rx, and both
+   get their own answer (reply / error reply) *)
 Example C11_demo :
   let reqs := [([114; 101; 97; 100]%N, [109; 58; 112]%N); ([114; 101; 97; 100]%N, [109; 58; 112]%N)] in
   let s := run R2R ERR reqs
-    [(TC 0, ANone); (TC 1, ANone); (TTx, ANone); (TTx, ANone); (TTx, ANone); (TTx, ANone); (TTx, ANone);
-     (TRx, ANone); (TRx, APeer (PReply 0 true)); (TRx, ANone); (TRx, ANone); (TRx, ANone); (TRx, ANone); (TRx, ANone);
-     (TTx, ANone); (TTx, ANone); (TRx, APeer (PReply 1 false)); (TRx, ANone); (TC 0, ANone); (TC 1, ANone)] in
+    [(TC 0, ANone); (TC 1, ANone); (TTx, ANone); (TTx, ANone); (TTx, ANone); (TTx, ANone);
+     (TRx, ANone); (TRx, ANone); (TRx, APeer (PReply 0 true)); (TRx, ANone); (TRx, ANone); (TRx, ANone);
+     (TTx, ANone); (TC 0, ANone);
+     (TRx, APeer PUpdate); (TRx, ANone); (TRx, ANone); (TRx, ANone); (TRx, ANone);
+     (TTx, ANone); (TTx, ANone); (TRx, APeer (PReply 1 false)); (TRx, ANone); (TRx, ANone); (TRx, ANone); (TC 1, ANone)] in
   map (fun c => match c with CDone (OReply m) => Some (true, m_tok m) | CDone (OError m) => Some (false, m_tok m) | _ => None end) (cs s)
-  = [Some (true, 0); Some (false, 1)].
-Proof. vm_compute. reflexivity. Qed.
+  = [Some (true, 0); Some (false, 1)] /\ pending s = [] /\ active s = [].
+Proof. vm_compute. repeat split; reflexivity. Qed.
 
 Print Assumptions C11_source_facts.
 Print Assumptions C11_one_entry_per_key.
@@ -98,7 +114,7 @@ Print Assumptions C11_answer_matched_to_own_entry.
 Print Assumptions C11_entries_linear.
 Print Assumptions C11_answered_at_most_once.
 Print Assumptions C11_wait_bounded.
-Print Assumptions C11_disconnect_raises_only_in_join_race.
-Print Assumptions C11_refuted_own_reply_parked.
-Print Assumptions C11_refuted_release_txq_entry_lost.
-Print Assumptions C11_refuted_disconnect_raises.
+Print Assumptions C11_disconnect_never_raises.
+Print Assumptions C11_drained_entry_released.
+Print Assumptions C11_late_request_released.
+Print Assumptions C11_parked_requeued_every_turn.
